@@ -595,6 +595,18 @@ impl PropImpl for C07 {
         let s = gen_settings(t);
         let o = doc::DocOpts { max_paras: 3, max_fields: 4, max_lines: 3, min_paras: if matches!(s.level, Level::Doc | Level::DocOnly) { 0 } else { 1 }, ..Default::default() };
         let mut doc = doc::gen_doc(t, &o);
+        // error-free documents may contain whitespace-only continuation lines (the strict reader accepts them)
+        if t.chance(1, 4) {
+            for p in doc.paras.iter_mut() {
+                for f in p.fields.iter_mut() {
+                    if f.lines.len() >= 2 && t.chance(1, 2) {
+                        let at = t.range(1, f.lines.len());
+                        f.lines.insert(at, String::new());
+                        f.indents.insert(at - 1, if t.flag() { " ".into() } else { " \t ".into() });
+                    }
+                }
+            }
+        }
         if ctx.avoid(KF_HASH_LINE) {
             // exclude the trigger of the listed finding by construction: no value line may end up
             // as a continuation line starting with '#'
